@@ -82,6 +82,11 @@ def _hidden_metadata_eval(run: Run, model: PyModel, gram: dict) -> None:
         ("plain item", f"{ZID} text", f"{ZID} ", " text", words | {"k::v"}),
         ("item with a modify date", f"240102 {ZID} text", f"240102 {ZID} ", " text", words | {"k::v"}),
         ("tag and property already in the body", f"{ZID} text {gram['areas']}A k::w", f"{ZID} ", f" text {gram['areas']}A k::w", words - {gram["areas"] + "A"}),
+        # tags of the body that merely START like an inherited one (plural, underscore, longer name, another kind's sigil) are different tags: the inherited ones are still written
+        ("look-alike tags in the body", f"{ZID} text {gram['areas']}As ({gram['areas']}A_x) {gram['areas']}Ab, {gram['projects']}Ps {gram['contexts']}P {gram['people']}QQ.", f"{ZID} ",
+         f" text {gram['areas']}As ({gram['areas']}A_x) {gram['areas']}Ab, {gram['projects']}Ps {gram['contexts']}P {gram['people']}QQ.", words | {"k::v"}),
+        ("inherited tags in the body, wrapped in punctuation", f"{ZID} text ({gram['areas']}A), {gram['projects']}P. {gram['contexts']}C; {gram['people']}Q!", f"{ZID} ",
+         f" text ({gram['areas']}A), {gram['projects']}P. {gram['contexts']}C; {gram['people']}Q!", {"k::v"}),
     ]
     n = 0
     for label, body, pre, post, want in scen:
@@ -120,7 +125,7 @@ def _hidden_metadata_eval(run: Run, model: PyModel, gram: dict) -> None:
             orig = s.obj(note).fields.get("body")
             run.check("C10.R4", f"{label}: the note handed in is not modified in place", orig == body, "_add_hidden_metadata", "mutates its argument",
                       "the note object read from the index is modified in place: delete_note afterwards looks for a body that no longer matches the source page", file=FILE_U, node=model.func(F_HIDDEN).node)
-    run.floor("hidden-metadata evaluations", n, 3)
+    run.floor("hidden-metadata evaluations", n, 5)
 
 
 def _lexer_literal(run: Run, token_name: str):
